@@ -121,6 +121,17 @@ func runRaceChild(c *xs.Ctx, r *xs.Result, bin, iters, cfi string) {
 		}
 		r.Violate("C05:concurrent-elections:answer-differs-from-the-sequential-election", msg, map[string]interface{}{"part": "race"})
 	case err != nil:
+		t := text
+		if i := strings.Index(t, "panic: "); i >= 0 {
+			t = t[i:]
+		}
+		if len(t) > 3000 {
+			t = t[:3000]
+		}
+		if frame, inNode := xs.CrashSite(t); inNode {
+			r.Violate("C05:concurrent-elections:node-code-panics:"+frame, "the free-running concurrent-elections pass died inside go-zenon code:\n"+t, map[string]interface{}{"part": "race"})
+			return
+		}
 		panic(fmt.Sprintf("concurrent-elections pass failed (exit %d): %s", code, text[max0(len(text)-1500):]))
 	default:
 		var nexec int
